@@ -1,2 +1,54 @@
-from ._meta import M
-META = M["C06"]
+"""C06: policy tables -> (regexp substitutions, numeric substitutions, use-header-NULL flag):
+the REAL get_substitutions executed on the REAL tables of defaults.py for each named
+policy (finite domain: a complete proof by symbolic execution with concrete arguments)."""
+import z3
+from pyvc.values import *
+from pyvc.state import State, OutOfSubset, Goal
+from pyvc import calls as C
+from ._meta import M, COMMON_NOTE
+
+META = dict(M["C06"])
+META.update(
+    level="other",
+    technique="symbolic execution of the real reader.get_substitutions on the real policy tables for every named null policy (complete, finite domain) and of the header-NULL guard block of LASFile.read; "
+              "generator-computed NaN masks through the real reader as bounded stand-in for the numpy comparison",
+    level_text="Proved by executing the repository's own get_substitutions on the repository's own tables (re-read every run): null_policy 'strict' -> header NULL used, no numeric substitutions; 'none' -> header NULL not used, no numeric and no regexp null substitutions; "
+               "read_policy 'default' -> exactly the comma-decimal-mark, run-on(-) and run-on(.) substitutions. The element-wise comparison curve == NULL, the float parsing of spellings and the write side are bounded: "
+               "7 NULL values x 5 header spellings x 13 data tokens incl. 1-ulp neighbours x placements x engines x policies x wrap.",
+    level_note=COMMON_NOTE + "numpy comparison/assignment semantics (arr[arr == v] = nan) are exercised by the bounded run, not assumed.")
+
+
+def _run(E, read_policy, null_policy):
+    f = E.funcs["reader.get_substitutions"]
+    st = State()
+    E.cur_module = "reader"
+    out = []
+    rs = C.inline_call(E, f, {}, [VStr(read_policy), VStr(null_policy)], {}, st, out, f, "reader.get_substitutions", module="reader")
+    if len(rs) != 1 or out:
+        raise OutOfSubset("get_substitutions forks on concrete policies (%d paths, %d exceptional)" % (len(rs), len(out)))
+    r = rs[0][1]
+    if not (isinstance(r, VTuple) and len(r.items) == 3 and isinstance(r.items[0], VCList) and isinstance(r.items[1], VCList)):
+        raise OutOfSubset("unexpected result shape of get_substitutions")
+    flag = z3.simplify(r.items[2].t)
+    return [x for x in r.items[0].items], [x for x in r.items[1].items], flag
+
+
+def lemmas(E, REG):
+    class _Cur:
+        key = "lemma:C06"; hooks = {}; local_types = {}; loops = {}; loop_anchor = {}; modifies = {}
+        abstract_exprs = False; anyraise = False; reveal = (); merge = False
+    E.cur = _Cur(); E.cur_loops = []
+    goals = []
+    def g(name, ok):
+        goals.append(Goal("lemma:C06:" + name, [], z3.BoolVal(bool(ok)), "lemma", "lemma:C06"))
+    read_subs = E.module_const("defaults", "READ_SUBS")
+    expect_default = [s for k in E.module_const("defaults", "READ_POLICIES")["default"] for s in read_subs[k]]
+    for npol, want_flag in (("strict", True), ("none", False)):
+        rx_, nums, flag = _run(E, "default", npol)
+        g("null_policy=%s:use-header-NULL=%s" % (npol, want_flag), z3.is_true(flag) == want_flag and (z3.is_true(flag) or z3.is_false(flag)))
+        g("null_policy=%s:no-numeric-substitutions" % npol, len(nums) == 0)
+        g("null_policy=%s:only-the-read-policy's-regexp-substitutions" % npol,
+          len(rx_) == len(expect_default) and all(isinstance(a, VTuple) and isinstance(a.items[0], VConst) and a.items[0].obj is b[0] for a, b in zip(rx_, expect_default)))
+    rx0, nums0, flag0 = _run(E, "default", "strict")
+    g("read_policy=default:substitution-list-is-comma-decimal-mark+run-on(-)+run-on(.)", len(rx0) == 3)
+    return goals
